@@ -35,6 +35,10 @@ type routeCase struct {
 	Named  []json.RawMessage `json:"named"` // rc resource ASTs
 	Calls  []routeCall       `json:"calls"`
 	Repeat int               `json:"repeat"`
+	// PrevLDS: an earlier version of the listener (same name) that the control plane had pushed, and that every router
+	// has been used with, before the tables above came into force (handlers registered on the manager are run for both
+	// pushes, state-of-the-world: a listener that is gone is absent from the second map)
+	PrevLDS json.RawMessage `json:"prev_lds"`
 }
 
 type routeRes struct {
@@ -167,6 +171,12 @@ func runRoute(raw json.RawMessage) (interface{}, error) {
 	if rep < 1 {
 		rep = 1
 	}
+	type prepared struct {
+		call   routeCall
+		ctx    context.Context
+		router *xdssuite.XDSRouter
+	}
+	var preps []prepared
 	for _, call := range c.Calls {
 		if call.Service == "" {
 			call.Service = lisName
@@ -185,9 +195,41 @@ func runRoute(raw json.RawMessage) (interface{}, error) {
 		} else {
 			router = xdssuite.NewXDSRouter()
 		}
+		preps = append(preps, prepared{call, ctx, router})
+	}
+	if len(c.PrevLDS) > 0 && string(c.PrevLDS) != "null" {
+		// the earlier push: served and used, then replaced by the tables in force
+		if n, err := parseNode(c.PrevLDS); err == nil {
+			if a, err := buildRes("lds", n); err == nil {
+				if prev, err := xdsresource.UnmarshalLDS([]*anypb.Any{a}); err == nil && len(prev) == 1 {
+					cur := fm.snapshot(xdsresource.ListenerType)
+					fm.clear(xdsresource.ListenerType)
+					for name, l := range prev {
+						fm.set(xdsresource.ListenerType, name, l, nil)
+						if lisName == "" {
+							lisName = name
+						}
+					}
+					fm.fire(xdsresource.ListenerType)
+					for i := range preps {
+						if preps[i].call.Service == "" {
+							preps[i].call.Service = lisName
+						}
+						routeSafely(preps[i].router, preps[i].ctx, newRI(preps[i].call))
+					}
+					fm.clear(xdsresource.ListenerType)
+					for name, r := range cur {
+						fm.set(xdsresource.ListenerType, name, r.val, r.err)
+					}
+					fm.fire(xdsresource.ListenerType)
+				}
+			}
+		}
+	}
+	for _, p := range preps {
 		var rs []routeRes
 		for i := 0; i < rep; i++ {
-			rs = append(rs, routeSafely(router, ctx, newRI(call)))
+			rs = append(rs, routeSafely(p.router, p.ctx, newRI(p.call)))
 		}
 		o.Results = append(o.Results, rs)
 	}
